@@ -50,7 +50,7 @@ def do_op(name, grid="std"):
     main = PositionInfo(L, U)
 
     def f(strategy, snapshot):
-        m = strategy.markets.default
+        m = next(mk for mk in strategy.broker.markets.values() if mk.market_info.name == "uni")
         if name == "swap":
             m.buy(Decimal("0.01"))
         elif name == "add_far":
@@ -154,7 +154,12 @@ def run_case(cfg):
         obs.append((before, after))
 
     market.update = wrapped_update
-    act = make_actuator([market], [(pool.token0, 10**6), (pool.token1, 10**6 if grid == "zero" else 1000)], st, market.get_price_from_data(),
+    markets = [market]
+    if cfg.get("idle_market_first"):
+        # another market of the same account, registered BEFORE the pool under test, in which nothing is ever written
+        other = uni.make_market(uni.pool_q0(0.3), uni.prepared(uni.raw_frame([200000] * len(raw.index), 0, 0, 10**18, open_tick=200000), uni.pool_q0(0.3)), "idle")
+        markets = [other, market]
+    act = make_actuator(markets, [(pool.token0, 10**6), (pool.token1, 10**6 if grid == "zero" else 1000)], st, market.get_price_from_data(),
                         interval=f"{k}min")
     err = None
     try:
@@ -253,6 +258,11 @@ def configs(thorough):
     for a, b in itertools.product(TICKS[::2], repeat=2):
         out.append({"closes": [TICKS[4], a, b], "pool": "small", "dtype": "float64", "open_bar": 0, "op": "none", "op_bar": 1,
                     "hook": "on_bar", "vols": "zero"})
+    # two markets in the account, the other one (idle) first: the refresh after a write must reach the pool all the same
+    for a, b in itertools.product(TICKS[::2], repeat=2):
+        for op in ("add_same", "remove_part"):
+            out.append({"closes": [TICKS[4], a, b], "pool": "small", "dtype": "float64", "open_bar": 0, "op": op, "op_bar": 2, "hook": "on_bar", "idle_market_first": True})
+        out.append({"closes": [TICKS[4], a, b], "pool": "small", "dtype": "float64", "open_bar": 1, "op": "none", "op_bar": 1, "hook": "on_bar", "idle_market_first": True})
     # one-way flow: only one of the two tokens was paid in during the bars
     for a, b in itertools.product(TICKS, repeat=2):
         for v in ("only0", "only1"):
@@ -318,7 +328,7 @@ def main(run: Run):
 def replay(run: Run, path):
     data = json.load(open(path))
     c = data["case"]
-    cfg = {k: c[k] for k in ("closes", "pool", "dtype", "open_bar", "op", "op_bar", "hook", "grid", "minutes_per_bar") if k in c}
+    cfg = {k: c[k] for k in ("closes", "pool", "dtype", "open_bar", "op", "op_bar", "hook", "grid", "minutes_per_bar", "idle_market_first") if k in c}
     if "vols" in c:
         cfg["vols"] = c["vols"]
     part = Part()
